@@ -339,8 +339,21 @@ def limit(check: Check, repo: Repo) -> None:
         raise AnalysisError("validate.on_error missing")
     cfg = CFG(on_error)
     app = lambda n: n.kind == "stmt" and n.ast is not None and unparse(n.ast) == "errors.append(error)"  # noqa: E731
-    guard_txt = ("len(errors) >= max_errors",)
-    tests = [n for n in cfg.nodes if n.kind == "test" and unparse(n.ast) in guard_txt]
+    # the limit may be held in a local of validate() computed from the parameter alone (`error_limit = 100 if max_errors is None else max_errors`)
+    limits = {"max_errors"}
+    for s_ in walk_body(fn):
+        if isinstance(s_, ast.Assign) and len(s_.targets) == 1 and isinstance(s_.targets[0], ast.Name):
+            names = {x.id for x in ast.walk(s_.value) if isinstance(x, ast.Name)}
+            if names and names <= {"max_errors"} and not any(isinstance(x, ast.Call) for x in ast.walk(s_.value)):
+                limits.add(s_.targets[0].id)
+
+    def is_guard(e: ast.AST) -> bool:
+        if not (isinstance(e, ast.Compare) and len(e.ops) == 1):
+            return False
+        l, r, op = unparse(e.left), unparse(e.comparators[0]), e.ops[0]
+        return (l == "len(errors)" and isinstance(op, ast.GtE) and r in limits) or (r == "len(errors)" and isinstance(op, ast.LtE) and l in limits)
+
+    tests = [n for n in cfg.nodes if n.kind == "test" and is_guard(n.ast)]
     ok = len(tests) == 1
     if ok:
         t = tests[0]
